@@ -14,7 +14,7 @@ fn named_tags() -> Vec<(&'static str, Tag)> {
          ("MusicBrainzTrackId", Tag::MusicBrainzTrackId), ("MusicBrainzWorkId", Tag::MusicBrainzWorkId), ("Name", Tag::Name),
          ("OriginalDate", Tag::OriginalDate), ("Performer", Tag::Performer), ("Title", Tag::Title), ("Track", Tag::Track), ("Work", Tag::Work)]
 }
-fn tag_of(spec: &str) -> Tag {
+pub fn tag_of(spec: &str) -> Tag {
     if let Some(h) = spec.strip_prefix("other:") {
         return Tag::Other(String::from_utf8(args_bytes(&[h.to_string()])[0].clone()).unwrap().into());
     }
@@ -111,4 +111,32 @@ pub fn subsys(a: &[String]) {
         }
         _ => panic!("subsys subcommand"),
     }
+}
+
+/// filter <postfix program>: `leaf <tag> <op> <hex value>` | `exists <tag>` | `absent <tag>` | `not` | `and`
+/// prints the wire bytes of `find <filter>`.
+pub fn filter(a: &[String]) {
+    use mpd_client::filter::{Filter, Operator};
+    let mut st: Vec<Filter> = Vec::new();
+    let mut i = 0;
+    while i < a.len() {
+        match a[i].as_str() {
+            "leaf" => {
+                let op = match a[i + 2].as_str() { "Equal" => Operator::Equal, "NotEqual" => Operator::NotEqual, "Contain" => Operator::Contain,
+                                                   "Match" => Operator::Match, "NotMatch" => Operator::NotMatch, _ => panic!("op") };
+                let v = String::from_utf8(args_bytes(&a[i + 3..i + 4])[0].clone()).unwrap();
+                st.push(Filter::new(tag_of(&a[i + 1]), op, v)); i += 4;
+            }
+            "exists" => { st.push(Filter::tag_exists(tag_of(&a[i + 1]))); i += 2; }
+            "absent" => { st.push(Filter::tag_absent(tag_of(&a[i + 1]))); i += 2; }
+            "not" => { let f = st.pop().unwrap(); st.push(f.negate()); i += 1; }
+            "and" => { let r = st.pop().unwrap(); let l = st.pop().unwrap(); st.push(l.and(r)); i += 1; }
+            _ => panic!("filter op"),
+        }
+    }
+    let f = st.pop().unwrap();
+    let cmd = mpd_protocol::command::Command::new("find").argument(f);
+    let mut c = mpd_protocol::Connection::connect(crate::Pipe { segs: vec![b"OK MPD 0.23.5\n".to_vec()], next: 0, out: Vec::new(), reads: 0 }).unwrap();
+    c.send(cmd).unwrap();
+    println!("wire={}", hex(&c.into_inner().out));
 }
